@@ -154,10 +154,12 @@ class FnSpec:
 
 # ---- ops
 def Ins(sel, pos, text): return ('ins', sel, pos, text)
-def Inv(sel, text, iter_name=None): return ('inv', sel, text, iter_name)
+def Inv(sel, text, iter_name=None, bind=None): return ('inv', sel, text, iter_name, bind)
 def LetBind(sel, name, pre='', post='', mut=False): return ('letbind', sel, name, pre, post, mut)
 def GhostArg(sel, text): return ('ghostarg', sel, text)
 def Closure(k, header): return ('closure', k, header)
+def DynCall(k, wrapper): return ('dyncall', k, wrapper)              # rule 7: k-th `<expr>?(args)` -> wrapper(<expr>?, args)
+def DynCallId(name, k, wrapper): return ('dyncallid', name, k, wrapper)   # rule 7: k-th `name(args)` -> wrapper(name, args)
 def Wrap(sel, before, after): return ('wrap', sel, before, after)     # wrap the k-th call expression textually: before + expr + after
 
 def apply_fn(f, ed, spec, counters):
@@ -217,15 +219,26 @@ def apply_fn(f, ed, spec, counters):
             else:
                 raise AnchorLost('bad position ' + pos)
         elif kind == 'inv':
-            _, sel, text, iter_name = op
+            _, sel, text, iter_name, bind = op
             s = v.select(sel)
             if s.kind != 'loop' or s.loop_bo is None: raise AnchorLost('%s: %s is not a loop statement' % (spec.key, sel))
             if iter_name:
-                # rule 10: `for x in E {` -> `for x in it: E {`
+                # rule 10: `for x in E {` -> `for x in it: E {` ; `E.into_iter()` -> `E` ; tuple pattern -> name + `let`
+                if t[s.loop_kw].s != 'for': raise AnchorLost('%s: %s is not a for loop' % (spec.key, sel))
                 j = s.loop_kw
                 while t[j].s != 'in': j += 1
                 ed.insert(t[j].b, ' %s:' % iter_name)
                 counters['rule10_for_iter'] = counters.get('rule10_for_iter', 0) + 1
+                e = s.loop_bo
+                if t[e - 1].s == ')' and t[e - 2].s == '(' and t[e - 3].s == 'into_iter' and t[e - 4].s == '.':
+                    ed.replace(t[e - 4].a, t[e - 1].b, '')
+                    counters['rule10_into_iter'] = counters.get('rule10_into_iter', 0) + 1
+                if bind:
+                    pa, pb = s.loop_kw + 1, j          # pattern tokens
+                    pat = src[t[pa].a:t[pb - 1].b]
+                    ed.replace(t[pa].a, t[pb - 1].b, bind)
+                    ed.insert(t[s.loop_bo].b, '\n' + _indent_of(src, t[s.i0].a) + '    let %s = %s;' % (pat, bind))
+                    counters['rule10_tuple_pattern'] = counters.get('rule10_tuple_pattern', 0) + 1
             a = t[s.loop_bo - 1].b; b = t[s.loop_bo].a
             ed.replace(a, b, '\n' + text.strip('\n') + '\n' + _indent_of(src, t[s.i0].a))
         elif kind == 'letbind':
@@ -283,6 +296,29 @@ def apply_fn(f, ed, spec, counters):
                 ed.replace(t[i].a, t[j - 1].b, header + ' {')
                 ed.insert(t[e - 1].b, ' }')
             counters['rule12_closure_header'] = counters.get('rule12_closure_header', 0) + 1
+        elif kind == 'dyncall':
+            _, k, wrapper = op
+            sites = [i for i in range(fn.i_bo, fn.i_bc) if t[i].s == '?' and t[i + 1].s == '(']
+            if k >= len(sites): raise AnchorLost('%s: handler application #%d not found' % (spec.key, k))
+            q = sites[k]
+            # callee expression: from the start of the receiver chain up to and including `?`
+            e = q - 1
+            if t[e].s != ')': raise AnchorLost('%s: unexpected handler application shape' % spec.key)
+            ca = t[e].mate - 1          # method name
+            a0, _b = v.call_extent(ca)
+            po = q + 1
+            empty = t[po + 1].s == ')'
+            ed.insert(t[a0].a, wrapper + '(')
+            ed.replace(t[po].a, t[po].b, '' if empty else ', ')
+            counters['rule7_dyn_call'] = counters.get('rule7_dyn_call', 0) + 1
+        elif kind == 'dyncallid':
+            _, name, k, wrapper = op
+            c = v.call_tokens(name)
+            if k >= len(c): raise AnchorLost('%s: call of %s #%d not found' % (spec.key, name, k))
+            ci = c[k]
+            ed.insert(t[ci].a, wrapper + '(')
+            ed.replace(t[ci + 1].a, t[ci + 1].b, ', ')
+            counters['rule7_dyn_call'] = counters.get('rule7_dyn_call', 0) + 1
         elif kind == 'wrap':
             _, sel, before, after = op
             m2 = re.match(r'^call:([^#]+)(?:#(\d+))?$', sel)
@@ -292,3 +328,53 @@ def apply_fn(f, ed, spec, counters):
             ed.insert(t[ca].a, before); ed.insert(t[cb - 1].b, after)
         else:
             raise AnchorLost('unknown op ' + kind)
+
+_KW = set('if while match return in for loop let mut ref move else break continue as fn self Self Some None Ok Err Box Vec String'.split())
+def rewrite_dyn_calls(f, fn, ed, counters):
+    """rule 7: `E?(args)` and `x(args)` with x a local variable (let / pattern / closure / parameter binding) are applications of a
+    handler value (`dyn Fn`, unsupported by Verus) -> vx_apply(E?, (args,)). Callee and arguments keep their evaluation order."""
+    t = f.toks; src = f.src
+    v = FnView(f, fn)
+    # locals: identifiers in binding positions
+    loc = set()
+    for i in range(fn.i_po + 1, fn.i_pc):
+        if t[i].k == 'id' and t[i + 1].s == ':' and t[i - 1].s in ('(', ',', 'mut'): loc.add(t[i].s)
+    i = fn.i_bo
+    while i < fn.i_bc:
+        if t[i].s == 'let':
+            j = i + 1
+            while t[j].s not in ('=', ';') and not (t[j].s == ':' and t[j + 1].s != ':'):
+                if t[j].k == 'id' and t[j].s not in _KW and t[j + 1].s not in ('(', '::', '{'): loc.add(t[j].s)
+                j += 1
+        elif t[i].s == '=>':
+            # pattern before `=>`: walk back to the previous `,` / `{` at the same depth
+            j = i - 1
+            while j > fn.i_bo and t[j].s not in (',', '{') :
+                if t[j].s in (')', ']', '}'): j = t[j].mate
+                j -= 1
+            for k in range(j + 1, i):
+                if t[k].k == 'id' and t[k].s not in _KW and t[k + 1].s not in ('(', '::', '{') and t[k - 1].s != '::': loc.add(t[k].s)
+        elif t[i].s == 'for':
+            j = i + 1
+            while t[j].s != 'in':
+                if t[j].k == 'id' and t[j].s not in _KW: loc.add(t[j].s)
+                j += 1
+        i += 1
+    for i in range(fn.i_bo, fn.i_bc):
+        callee = None
+        if t[i].s == '?' and t[i + 1].s == '(' and t[i - 1].s == ')':
+            ca = t[i - 1].mate - 1
+            if t[ca].k != 'id': continue
+            a0, _ = v.call_extent(ca)
+            callee = (a0, i + 1)
+        elif t[i].k == 'id' and t[i].s in loc and t[i + 1].s == '(' and t[i - 1].s not in ('.', '::', 'fn') and t[i].s not in _KW:
+            callee = (i, i + 1)
+        if callee is None: continue
+        po = callee[1]; pc = t[po].mate
+        ed.insert(t[callee[0]].a, 'vx_apply(')
+        if pc == po + 1:
+            ed.replace(t[po].a, t[pc].b, ', ())')
+        else:
+            ed.replace(t[po].a, t[po].b, ', (')
+            ed.replace(t[pc].a, t[pc].b, '))' if t[pc - 1].s == ',' else ',))')
+        counters['rule7_dyn_call'] = counters.get('rule7_dyn_call', 0) + 1
